@@ -951,10 +951,11 @@ class BaseComponent(object):
 
     # --------------------------------------------------------------------------
     #
-    def is_canceled(self, task):
+    def is_canceled(self, task, advance=True):
         '''
         check if the given task is listed in the cancel list.  If so, advance it
-        as CANCELED and return True - otherwise return False.
+        as CANCELED (unless `advance` is unset, in which case the caller takes
+        care of the cancellation) and return True - otherwise return False.
         '''
 
         # FIXME: this can become expensive over time
@@ -967,7 +968,7 @@ class BaseComponent(object):
             if tid not in self._cancel_list:
                 return False
 
-            if 'state' in task:
+            if advance and 'state' in task:
                 self.advance(task, rps.CANCELED, publish=True, push=False)
 
             # remove from cancel list
